@@ -26,6 +26,26 @@ CLAIMED = {
          "Design: TLC explores the scan for every reservation layout/order, request sequence and alignment at small constants, including liveness. Conformance: each call of allocate() is a trace (grant events, then ok/raise) with Size/InRange/OnAlignment/Unreserved/Disjoint/Once/AllGranted/OnlyDocumentedError/Complete clauses evaluated by TLC.",
          "Trusted: TLC, Json override, the projection of constraints and results into the trace in harness/props/c05.py. Completeness is judged only for non-overlapping end reservations without alignment (the property's own precondition).",
          "DESIGN.md §6 C05"),
+ "C04": ("TLA+ specs KeyMask/RoutingTable (first-match lookup, Equivalent over all keys) + OrderedCoveringDesign (merge/up-check/down-check/alias rules and default-route removal as a state machine; TLC exhaustive) + TLC trace validation of every minimiser result and every single-stepped merge (RoutingTableTrace.tla)",
+         "Design: from every orthogonal or generality-ordered table at small width, any sequence of merges passing rule (a)/(b) followed by default-route removal keeps the table Equivalent to the original (1-3 M states). Conformance: results of remove_default_routes, ordered_covering, minimise_table, minimise_tables for all targets, and each intermediate table of ordered covering, are judged by TLC with Equivalent quantified over all 2^W keys, plus NotLonger/MeetsTarget/FailHonest/FailReportsBest/OnlyDocumentedError.",
+         "Trusted: TLC + Bitwise override, table encoding in harness/props/c04.py. Tables use W <= 10 active key bits; the remaining bits are fixed per table and TLC checks they stay fixed (FixedBits), which makes the low-bit comparison exact. FailReportsBest compares with a second rig run without target (relational).",
+         "DESIGN.md §6 C04"),
+ "C03": ("TLA+ specs Hex (fabric, liveness, connectivity by BFS) / RoutingTree (TreeValid) + NerRepairDesign (dead-link repair as a state machine on a small torus; the pinned repair rule is refuted by TLC) + TLC trace validation of every tree route()/ner_net return (RoutingTreeTrace.tla)",
+         "Design: TLC explores every small tree x dead-link set x A* path and proves the repair keeps one parent per node and ends in a live spanning tree; the variant modelling the pinned code is refuted (counter-example = the defect fixed in d1ee90f). Conformance: each returned tree is an event with RootAtSource/ChipOnce/IsTree/HopsLive/NodesLive/LeavesExact/SinkChipsInTree clauses; a raised error must be the disconnected-machine error on a machine the spec itself finds disconnected.",
+         "Trusted: TLC, tree flattening in harness/proj.py (by object identity, self-tested), machine encoding. Random tie-breaks are seeded, not enumerated.",
+         "DESIGN.md §6 C03"),
+ "C02": ("TLA+ specs Placement (Feasible, Easy) + PlacementDesign (first-fit cyclic/advance-only + annealing swaps; the two-resource variant of the success guarantee is refuted) + TLC trace validation of every placer configuration's result (PlacementTrace.tla)",
+         "Design: no chip ever over-committed under any swap sequence; first-fit never fails on unit-demand single-resource problems that fit. Conformance: nine placer configurations per problem plus annealing with both kernels (snapshots at temperature changes) judged by EveryVertexOnAWorkingChip/WithinResources/LocationsHonoured/SameChipHonoured/SwapKeepsFeasible/OnlyDocumentedErrors/MustSucceed.",
+         "Trusted: TLC, problem/placement encoding in harness/props/c02.py. Termination is an observation (120 s watchdog), the C kernel is observed at temperature changes and at the end only.",
+         "DESIGN.md §6 C02"),
+ "C16": ("TLA+ spec FixedPoint (exact symbolic arithmetic on bit sequences: ToFp = clamp(trunc(x * 2^f))) + FixedPointDesign (toy float line, all small formats; TLC exhaustive) + TLC trace validation of float_to_fp / fp_to_float / NumPy converters / deprecated variants (FixedPointTrace.tla)",
+         "Design: clamp/trunc, range, monotonicity, within-one-step and round trip checked against integer arithmetic on a toy float format for all formats n <= 6-7. Conformance: every conversion result is an event; doubles travel as exact sign/mantissa/exponent, 64-bit values as limbs, so TLC decides exact expected values.",
+         "Trusted: TLC, float.hex-based decomposition in harness/props/c16.py, NumPy/CPython float semantics. Round trip is demanded for values spanning <= 53 bits; arrays are float64.",
+         "DESIGN.md §6 C16, §7"),
+ "C20": ("TLA+ spec Boot (datagram layout, un-swapping, config area = packed defaults + options, history clauses) + BootDesign (datagram-level state machine; leaky-default variants refuted) + TLC trace validation of boot histories (BootTrace.tla)",
+         "Design: 2-3 boots x option sets x image lengths; the leaking-default variant violates OnlyOwnOptions as it must. Conformance: histories of 1-4 boots in one (forked) process against a recording socket: every datagram is judged (StartAnnouncesBlocks, BlocksConsecutive, EndAfterBlocks, ImageReassembles, ConfigIsDefaultsPlusOptions, OnlyOwnOptions, ConfigDependsOnOwnOptionsOnly, ReturnedStructsAgree, SentToBootedBoard).",
+         "Trusted: TLC, fake socket/time substituted from outside, transcription of the sv struct in Boot.tla from sark.struct. unix_time/boot_sig/root_chip are masked.",
+         "DESIGN.md §6 C20"),
 }
 NOT_YET = "check not built yet in this round (planned in DESIGN.md §6); not claimed until its spec and conformance harness exist"
 
